@@ -494,3 +494,25 @@ func TestFindingF23MacroPathWithoutProperty(t *testing.T) {
 		t.Fatal("a later write hangs: the failed call left its transaction open")
 	}
 }
+
+// F24 [C19] Bodies and xattrs are stored as BLOBs, and SQLite (3.45+) reads a BLOB argument of its JSON operators as
+// JSONB: an 8-byte body such as {"n":10} happens to parse as JSONB, so body->>'n' is NULL in a query although the
+// key-value API returns 10. The query's view of a document must equal its key-value read-back.
+func TestFindingF24QuerySeesJSONBodyAsText(t *testing.T) {
+	_, c := findingBucket(t)
+	require.NoError(t, c.SetRaw("d7", 0, nil, []byte(`{"n":1}`)))
+	require.NoError(t, c.SetRaw("d8", 0, nil, []byte(`{"n":10}`)))
+	require.NoError(t, c.SetRaw("d9", 0, nil, []byte(`{"n":100}`)))
+	it, err := c.Query(sgbucket.SQLiteLanguage, `SELECT id, body->>'n' AS n FROM $_keyspace ORDER BY id`, nil, sgbucket.RequestPlus, true)
+	require.NoError(t, err)
+	var rows []string
+	for {
+		row := it.NextBytes()
+		if row == nil {
+			break
+		}
+		rows = append(rows, string(row))
+	}
+	require.NoError(t, it.Close())
+	require.Equal(t, []string{`{"id":d7,"n":1}`, `{"id":d8,"n":10}`, `{"id":d9,"n":100}`}, rows)
+}
